@@ -62,6 +62,27 @@ TQuery == /\ IsEvent("q")
                   /\ IF Ev.k = "map" THEN QMap(Ev.c, S(Ev.rs)) ELSE QNil(S(Ev.rs))
           /\ UNCHANGED vars
 
-TraceNext == TLb \/ THealth \/ TQuery
+(* rq: one request of a route.  rm = the route's metadata_match, q = the request's own metadata (optional maps as JSON
+   arrays: [] absent, [m] present); crit (when the driver could read it) = the criteria the balancer received;
+   n / ex / rs as in q (an end-to-end request through MOSN has only rs: the host that answered, 0 = answered by the proxy
+   itself because no host was chosen).  The expectation is a pure function of (rm, q): what earlier requests of the
+   route carried does not matter. *)
+RqAnswers(want, rs) ==
+  LET cand == CandidatesOf(want) IN
+     /\ (Has(Ev, "n")  => Expect(Ev.n = Cardinality(cand), "request-criteria:hostnum"))
+     /\ (Has(Ev, "ex") => Expect(Ev.ex = (cand # {}), "request-criteria:exists"))
+     /\ Expect(\A r \in rs : r = None \/ r \in cand, "request-criteria:host-outside-candidates")
+     /\ Expect(cand \cap healthy # {} => None \notin rs, "request-criteria:no-host")
+     /\ Expect(cand = {} => rs \subseteq {None}, "request-criteria:host-though-no-candidate")
+
+TRq == /\ IsEvent("rq")
+       /\ phase = "built"
+       /\ IF Has(Ev, "panic") THEN Expect(FALSE, "request-panics")
+          ELSE LET want == ReqCriteria(Ev.rm, Ev.q) IN
+               /\ (Has(Ev, "crit") => Expect(Ev.crit = want, "request-criteria:criteria-differ-from-route-and-request"))
+               /\ RqAnswers(want, S(Ev.rs))
+       /\ UNCHANGED vars
+
+TraceNext == TLb \/ THealth \/ TQuery \/ TRq
 TraceSpec == TraceInit /\ [][TraceNext]_tvars
 ====
